@@ -143,3 +143,12 @@ def tlc_export(ctx, module, consts, name, invariants=("Export",), spec="Spec", w
         except ValueError:
             pass
     return r, cases
+
+
+def finish_replay(ctx, sample):
+    """a replay run reports its verdict but must not overwrite the evidence of the last full run"""
+    core.EVID = os.path.join(core.PWORK, "replay_evidence")
+    os.makedirs(core.EVID, exist_ok=True)
+    ctx.cov.update({"evaluations": 1, "distinct_nontrivial": 0, "rule": "replay of one recorded case"})
+    ctx.sample(sample)
+    ctx.finish()
